@@ -4,6 +4,7 @@ import (
 	"fmt"
 	"sort"
 	"strings"
+	"sync"
 
 	"github.com/imroc/req/v3/verifharness/hk"
 )
@@ -14,11 +15,17 @@ type gen struct {
 	o   *origin
 	n   int // exchange counter
 	// things noted but not alarmed on
+	xmu              sync.Mutex
 	oddOrderedSilent int
 	alteredNames     int
 }
 
-func (g *gen) nextX() string { g.n++; return fmt.Sprintf("c%d", g.n) }
+func (g *gen) nextX() string {
+	g.xmu.Lock()
+	defer g.xmu.Unlock()
+	g.n++
+	return fmt.Sprintf("c%d", g.n)
+}
 
 // kvs is one entry of a url.Values-shaped map.
 type kvs struct {
